@@ -16,6 +16,7 @@ package interp
 
 import (
 	"fmt"
+	"go/constant"
 	"go/token"
 	"go/types"
 	"os"
@@ -164,6 +165,11 @@ func (fr *frame) get(key ssa.Value) value {
 	case *ssa.Function, *ssa.Builtin:
 		return key
 	case *ssa.Const:
+		if rw := fr.i.st.w.eng.Opts.ConstRewrite; len(rw) > 0 {
+			if v, ok := fr.rewriteConst(key, rw); ok {
+				return v
+			}
+		}
 		return constValue(key)
 	case *ssa.Global:
 		return fr.i.global(key)
@@ -172,6 +178,29 @@ func (fr *frame) get(key ssa.Value) value {
 		return r
 	}
 	panic(fmt.Sprintf("get: no value for %T: %v", key, key.Name()))
+}
+
+// rewriteConst: an integer constant of a function named in the const_rewrite
+// option is executed with the configured value (noted as a stub in the evidence).
+func (fr *frame) rewriteConst(c *ssa.Const, rw []ConstRewrite) (value, bool) {
+	if c.Value == nil || c.Value.Kind() != constant.Int || fr.fn == nil {
+		return nil, false
+	}
+	t, ok := c.Type().Underlying().(*types.Basic)
+	if !ok || t.Kind() != types.Int {
+		return nil, false
+	}
+	n, exact := constant.Int64Val(c.Value)
+	if !exact {
+		return nil, false
+	}
+	for _, r := range rw {
+		if r.From == n && strings.Contains(fr.fn.String(), r.Func) {
+			fr.i.st.noteStub(fmt.Sprintf("constant %d in %s executed as %d (const_rewrite)", n, fr.fn.String(), r.To))
+			return int(r.To), true
+		}
+	}
+	return nil, false
 }
 
 func (i *interpreter) global(g *ssa.Global) *value {
